@@ -175,6 +175,7 @@ func c07CallerSets(typ, field string) (string, bool) {
 }
 
 func runC07(c *an.Ctx) {
+	c.Inf("C07-R5", "whole-struct copies", token.NoPos, "%d whole-struct copies in package dnsmsg examined", sharedNoShallowCopy(c, "C07-R5", "dnsmsg."))
 	c.Inf("C07-R1", "pooled buffers", token.NoPos, "%d Pool.Get sites of byte buffers / string builders in the whole repository checked for Reset-before-use",
 		sharedPoolBufferReset(c, "C07-R1", ""))
 	c.Floor("C07-R1", 60)
